@@ -32,11 +32,12 @@ def run(tier: str) -> int:
     qc = core.query_classes()
     for d, Q in qc.items():
         ld = core.lex_dialect(d)
-        for h in progs:
+        for h in progs + ([dict(x, siblings=True) for x in progs[::7]] if d == "generic" else []):
             if d != "postgresql" and any(c["m"] == "returning" for c in h["hist"]):
                 continue
             env = execb.Env(Q)
-            q, excs = env.run(h["hist"])
+            # (a sample of the programs is also run inside a branching history: sibling continuations derived and discarded)
+            q, excs = env.run(h["hist"], decoys=bool(h.get("siblings")))
             exc, text = next((e for e in excs if e), ""), ""
             if exc:
                 continue  # a call of the history was rejected (guards are C14's): no statement to look at
@@ -63,7 +64,7 @@ def run(tier: str) -> int:
         d, h, text = meta[v["tid"]]
         shape = own_shape(h["hist"])
         for clause, fault, col in sorted(v["bad"]):
-            rep.discrepancy([[d, h["kind"], clause, shape, fault]],
+            rep.discrepancy([[d, h["kind"], clause, shape, fault]] + ([[d, h["kind"], clause, shape, fault, "with-sibling-continuations"]] if h.get("siblings") else []),
                             {"dialect": d, "kind": h["kind"], "calls": h["hist"], "sql": text, "expected": v["want"], "observed": events[v["tid"]]["quals"]},
                             what=f"{clause}: qualifier {fault}")
     for k in (0, len(meta) // 2, len(meta) - 1):
